@@ -2487,6 +2487,12 @@ pub fn compile<I: BufRead, O: Write>(
                 error: format!("Invalid macro name in -D option: {}", def),
             });
         }
+        // The value is written on one line of the preprocessed text: the line table has one entry per line
+        if value.contains('\n') {
+            return Err(Error::Configuration {
+                error: format!("Line break in the value of -D option: {}", def),
+            });
+        }
         context.define(def, value);
     }
 
